@@ -219,9 +219,9 @@ theorem eval_static (p : SKProvider) (hp : ProviderOK p) (env1 env2 : EvalEnv) (
 /-- the second environment answers every known query the first answers definitely, identically -/
 structure AgreeLe (p : SKProvider) (env1 env2 : EvalEnv) : Prop where
   var : ∀ l path, p.queryVariable l path = true → ∀ v, env1.var l path = .ok v → v ≠ .unknown → env2.var l path = .ok v
-  fn : ∀ n vs c, env2.fn (.asmBuiltin n) vs c = env1.fn (.asmBuiltin n) vs c
+  fn : ∀ n vs c v, env1.fn (.asmBuiltin n) vs c = .ok v → v ≠ .unknown → env2.fn (.asmBuiltin n) vs c = .ok v
   callee : ∀ n, p.queryFunction n = true → isBuiltinName n = false →
-    ∃ n', env1.var 0 [n] = .ok (.asmBuiltin n') ∧ env2.var 0 [n] = .ok (.asmBuiltin n')
+    (∃ n', env1.var 0 [n] = .ok (.asmBuiltin n') ∧ env2.var 0 [n] = .ok (.asmBuiltin n')) ∨ env1.var 0 [n] = .ok .unknown
 
 theorem ne_unknown_of_not_propagate {v : Value} (h : ¬ v.shouldPropagate = true) : v ≠ .unknown := by
   intro e; subst e; exact h rfl
@@ -267,13 +267,49 @@ theorem callee_eval' (p : SKProvider) (env1 env2 : EvalEnv)
     · simp [eval, hb, hl, e1, Except.map]
     · simp [eval, hb, hl, e2, Except.map]
 
+theorem callee_evalU (p : SKProvider) (env1 env2 : EvalEnv)
+    (hc : ∀ n, p.queryFunction n = true → isBuiltinName n = false →
+      (∃ n', env1.var 0 [n] = .ok (.asmBuiltin n') ∧ env2.var 0 [n] = .ok (.asmBuiltin n')) ∨ env1.var 0 [n] = .ok .unknown)
+    (c : ECtx) (n : String)
+    (hkn : (builtinStaticallyKnownValue n || ((p.local? n).isNone && p.queryFunction n)) = true) (hinv : CtxInv p c) :
+    ∃ fv, eval env1 c (.var 0 [n]) = .ok (fv, c) ∧
+      ((eval env2 c (.var 0 [n]) = .ok (fv, c) ∧ fv.shouldPropagate = false ∧ (fv = .builtin n ∨ ∃ n', fv = .asmBuiltin n')) ∨
+        fv = .unknown) := by
+  by_cases hb : isBuiltinName n = true
+  · exact ⟨.builtin n, by simp [eval, hb], Or.inl ⟨by simp [eval, hb], rfl, Or.inl rfl⟩⟩
+  · have hq : (p.local? n).isNone = true ∧ p.queryFunction n = true := by
+      cases h1 : builtinStaticallyKnownValue n with
+      | true => exact absurd (builtinKnown_isBuiltin n h1) hb
+      | false => simpa [h1] using hkn
+    have hloc : p.local? n = none := by
+      cases hh : p.local? n with
+      | none => rfl
+      | some l => rw [hh] at hq; cases hq.1
+    have hl := hinv.1 n hq.2 hloc
+    have hq := hq.2
+    rcases hc n hq (by simpa using hb) with ⟨n', e1, e2⟩ | e1
+    · refine ⟨.asmBuiltin n', ?_, Or.inl ⟨?_, rfl, Or.inr ⟨n', rfl⟩⟩⟩
+      · simp [eval, hb, hl, e1, Except.map]
+      · simp [eval, hb, hl, e2, Except.map]
+    · refine ⟨.unknown, ?_, Or.inr rfl⟩
+      simp [eval, hb, hl, e1, Except.map]
+
 theorem call_static_le (p : SKProvider) (env1 env2 : EvalEnv) (ag : AgreeLe p env1 env2) (c : ECtx) (n : String) (args : List Expr)
     (hkn : (builtinStaticallyKnownValue n || ((p.local? n).isNone && p.queryFunction n)) = true) (hinv : CtxInv p c)
     (iha : ∀ r c', evalArgs env1 c [] args = .ok (r, c') → (∀ u, r = .inl u → u.isUnk = false) →
       evalArgs env2 c [] args = .ok (r, c') ∧ CtxInv p c')
     (v : Value) (c' : ECtx) (hev : eval env1 c (.call (.var 0 [n]) args) = .ok (v, c')) (hne : v.isUnk = false) :
     eval env2 c (.call (.var 0 [n]) args) = .ok (v, c') ∧ CtxInv p c' := by
-  obtain ⟨fv, h1, h2, hnp, hfv⟩ := callee_eval' p env1 env2 ag.callee c n hkn hinv
+  obtain ⟨fv, h1, hcase⟩ := callee_evalU p env1 env2 ag.callee c n hkn hinv
+  rcases hcase with ⟨h2, hnp, hfv⟩ | hunk
+  case inr =>
+    subst hunk
+    generalize Expr.var 0 [n] = f at h1 hev ⊢
+    rw [eval, h1] at hev
+    simp only [Value.shouldPropagate, if_true] at hev
+    injection hev with hev; injection hev with hu _
+    subst hu
+    cases hne
   generalize Expr.var 0 [n] = f at h1 h2 hev ⊢
   rw [eval, h1] at hev
   rw [eval, h2]
@@ -300,10 +336,12 @@ theorem call_static_le (p : SKProvider) (env1 env2 : EvalEnv) (ag : AgreeLe p en
         subst this
         exact ⟨hev, i2⟩
       · subst hfv
-        simp only [ag.fn] at hev ⊢
+        simp only at hev ⊢
         have := map_ok_snd _ id _ _ _ hev
         subst this
-        exact ⟨hev, i2⟩
+        obtain ⟨hv, _⟩ := (map_pair_ok _ _ _ _).mp hev
+        rw [ag.fn n' vs _ v hv (by intro e; subst e; cases hne)]
+        exact ⟨rfl, i2⟩
 
 set_option maxHeartbeats 4000000 in
 theorem eval_static_le (p : SKProvider) (hp : ProviderOK p) (env1 env2 : EvalEnv) (ag : AgreeLe p env1 env2) :
@@ -371,12 +409,17 @@ theorem eval_static_le (p : SKProvider) (hp : ProviderOK p) (env1 env2 : EvalEnv
   case case65 | case67 | case68 | case69 | case70 =>
     obtain ⟨n, hf, hka, hkn⟩ := call_known_inv p _ _ (by simpa [staticallyKnown] using hk)
     subst hf
-    obtain ⟨fv, h1, h2, hnp, hfv⟩ := callee_eval' p env1 env2 ag.callee _ n hkn hinv
-    simp only [h1, Except.ok.injEq, Prod.mk.injEq, reduceCtorEq] at *
-    all_goals (
-      try (obtain ⟨rfl, rfl⟩ := ‹fv = _ ∧ _ = _›)
-      first
-        | (simp_all; done)
-        | exact call_static_le p env1 env2 ag _ n _ hkn hinv (by apply_assumption <;> assumption) _ _ hev hne)
+    obtain ⟨fv, h1, hcase⟩ := callee_evalU p env1 env2 ag.callee _ n hkn hinv
+    rcases hcase with ⟨h2, hnp, hfv⟩ | hunk
+    · simp only [h1, Except.ok.injEq, Prod.mk.injEq, reduceCtorEq] at *
+      all_goals (
+        try (obtain ⟨rfl, rfl⟩ := ‹fv = _ ∧ _ = _›)
+        first
+          | (simp_all; done)
+          | exact call_static_le p env1 env2 ag _ n _ hkn hinv (by apply_assumption <;> assumption) _ _ hev hne)
+    · subst hunk
+      all_goals (
+        rw [eval, h1] at hev; simp only [Value.shouldPropagate, if_true] at hev
+        injection hev with hev; injection hev with hu _; subst hu; cases hne)
 
 end Casm
